@@ -25,15 +25,20 @@ Ran(f) == {f[x] : x \in DOMAIN f}
 
 InitSess(timeoutMs, maxIdle) ==
   [timeout |-> timeoutMs, maxidle |-> maxIdle, map |-> EmptyFn, peer |-> EmptyFn, last |-> EmptyFn, hold |-> EmptyFn,
-   born |-> {}, dead |-> {}, objs |-> {}, closed |-> {}, teardown |-> FALSE]
+   born |-> {}, dead |-> {}, objs |-> {}, closed |-> {}, teardown |-> FALSE,
+   streamPeers |-> {}]      \* the peers that talk to the stream endpoint (set by the user of this module)
 
 Live(st) == Ran(st.map)
 Holders(st, s) == Get(st.hold, s, {})
 Idle(st, s) == s \in Live(st) /\ Holders(st, s) = {}
 IdleSet(st) == {s \in Live(st) : Idle(st, s)}
 Overdue(st, s, now) == st.last[s] + st.timeout <= now
-\* s is an idle session none of the idle ones is older than
-OldestIdle(st, s) == Idle(st, s) /\ \A o \in IdleSet(st) : st.last[s] <= st.last[o]
+\* The idle limit and the eviction of the oldest idle session are per ENDPOINT (coap_endpoint_get_session walks the sessions of the endpoint
+\* the datagram arrived on): datagram peers share one endpoint, stream peers another
+SameEndpoint(st, a, b) == (st.peer[a] \in st.streamPeers) = (st.peer[b] \in st.streamPeers)
+IdleWith(st, s) == {o \in IdleSet(st) : SameEndpoint(st, o, s)}
+\* s is an idle session none of the idle ones of its endpoint is older than
+OldestIdle(st, s) == Idle(st, s) /\ \A o \in IdleWith(st, s) : st.last[s] <= st.last[o]
 
 \* ---- creation: a datagram from a peer that has no live session ----
 New_ok(st, s, p) == s \in st.objs /\ s \notin st.born /\ p \notin DOMAIN st.map
@@ -58,8 +63,8 @@ DelCause(st, s, now) ==
   ELSE IF ~Idle(st, s) THEN "none-held"
   ELSE IF s \in st.closed THEN "closed"                          \* no timeout to wait for: the peer is gone
   ELSE IF Overdue(st, s, now) THEN "timeout"
-  ELSE IF st.maxidle > 0 /\ Cardinality(IdleSet(st)) >= st.maxidle /\ OldestIdle(st, s) THEN "evicted"
-  ELSE IF st.maxidle > 0 /\ Cardinality(IdleSet(st)) >= st.maxidle THEN "none-not-oldest"
+  ELSE IF st.maxidle > 0 /\ Cardinality(IdleWith(st, s)) >= st.maxidle /\ OldestIdle(st, s) THEN "evicted"
+  ELSE IF st.maxidle > 0 /\ Cardinality(IdleWith(st, s)) >= st.maxidle THEN "none-not-oldest"
   ELSE "none-early"
 Del_ok(st, s, now) == s \in st.born /\ s \notin st.dead /\ DelCause(st, s, now) \in {"teardown", "timeout", "evicted", "closed"}
 Del_do(st, s) == [st EXCEPT !.map = Drop(@, st.peer[s]), !.dead = @ \cup {s}, !.hold = Drop(@, s), !.closed = @ \ {s}]
